@@ -18,7 +18,11 @@ in the BTP request (both inside the `try`: skipped), or in the LDM feed AFTER th
 
 Variant flags (probed on the real code at run time, regenerated structurally in Generated/FacFlow.lean):
 `ldmIsolated`  = a failing LDM feed does not abort the bookkeeping of the transmitted CAM (repaired; fixes/C10-cam-ldm-failure),
-`restartHold`  = T_GenCamMin is also kept across a stop()/start() cycle (repaired; fixes/C10-cam-restart-min-gap).
+`restartHold`  = T_GenCamMin is also kept across a stop()/start() cycle (repaired; fixes/C10-cam-restart-min-gap),
+`holdSticky`   = `start()` only ever SETS the hold (from the last CAM of the activation that just ended); a start() after
+                 an activation in which no CAM went out leaves a still-valid hold alone.  `false` = the hold is
+                 reassigned unconditionally (`= last + MIN if last is not None else None`), which clears it at the second
+                 of several quick restarts (regenerated fact `CAM_RESTART_HOLD_STICKY`).
 -/
 import Generated.FacConstants
 import Generated.FacFlow
@@ -44,6 +48,7 @@ structure Cfg where
   hasSpecialData : Bool := false
   ldmIsolated : Bool := true
   restartHold : Bool := true
+  holdSticky : Bool := true
   deriving Repr, DecidableEq, Inhabited
 
 /-- where the generation of a due CAM fails -/
@@ -209,7 +214,7 @@ def step (hav : Pos → Pos → Nat) (s : State) : Op → State × Option CamOut
     else ({ cfg := s.cfg, cur := s.cur, active := true, live := s.live + 1, tracked := true, inflight := s.inflight,
             holdUntil := match s.lastCamTime with
                          | some t => some (t + T_GEN_CAM_MIN)
-                         | none => s.holdUntil }, none)
+                         | none => if s.cfg.holdSticky then s.holdUntil else none }, none)
   | .stop => ({ s with active := false, live := if s.tracked then s.live - 1 else s.live, tracked := false }, none)
   | .report r => ({ s with cur := some r }, none)
   | .expire tr => ({ s with live := s.live - 1, inflight := s.inflight + 1, tracked := s.tracked && !tr }, none)
